@@ -240,31 +240,34 @@ Section SQL.
 End SQL.
 
 (* get_references_for_sql / get_inline_references_for_sql *)
+(* does table [tid] hold the key of reference r: left side for > and -, right side for < *)
+Definition holds_key (h : heap) (r : reference) (tid : oid) : res bool :=
+  if ostr_eqb (r_type r) (Some MANY_TO_ONE) || ostr_eqb (r_type r) (Some ONE_TO_ONE)
+  then do t1 <- ref_table1 h r; Ok (otable_eqb h t1 (Some tid))
+  else if ostr_eqb (r_type r) (Some ONE_TO_MANY)
+       then do t2 <- ref_table2 h r; Ok (otable_eqb h t2 (Some tid))
+       else Ok false.
+
+Fixpoint refs_for_sql_loop (h : heap) (tid : oid) (l : list oid) : res (list oid) :=
+  match l with
+  | [] => Ok []
+  | rid :: rest =>
+      match h_reference h rid with
+      | None => Raise (EStuck 57)
+      | Some r =>
+          do keep <- holds_key h r tid;
+          do tl <- refs_for_sql_loop h tid rest;
+          Ok (if keep then rid :: tl else tl)
+      end
+  end.
+
 Definition references_for_sql (h : heap) (tid : oid) (t : table) : res (list oid) :=
   match t_database t with
   | None => Raise EUnknownDatabase
   | Some d =>
       match h_database h d with
       | None => Raise (EStuck 56)
-      | Some db =>
-          let fix go (l : list oid) : res (list oid) :=
-            match l with
-            | [] => Ok []
-            | rid :: rest =>
-                match h_reference h rid with
-                | None => Raise (EStuck 57)
-                | Some r =>
-                    do keep <-
-                      (if ostr_eqb (r_type r) (Some MANY_TO_ONE) || ostr_eqb (r_type r) (Some ONE_TO_ONE)
-                       then do t1 <- ref_table1 h r; Ok (otable_eqb h t1 (Some tid))
-                       else if ostr_eqb (r_type r) (Some ONE_TO_MANY)
-                            then do t2 <- ref_table2 h r; Ok (otable_eqb h t2 (Some tid))
-                            else Ok false);
-                    do tl <- go rest;
-                    Ok (if keep then rid :: tl else tl)
-                end
-            end in
-          go (d_refs db)
+      | Some db => refs_for_sql_loop h tid (d_refs db)
       end
   end.
 
